@@ -1,5 +1,6 @@
 //! vh: conformance harness. `vh <engine> --cases <file> --out <trace.ndjson> [--seed N] [--tier quick|thorough]`
 mod common;
+mod eng_client;
 mod eng_server;
 mod eng_session;
 mod feops;
@@ -21,6 +22,16 @@ fn main() {
     let engine = args[1].as_str();
     let seed: u64 = arg(&args, "--seed").and_then(|s| s.parse().ok()).unwrap_or(1);
     let _tier = arg(&args, "--tier").unwrap_or_else(|| "quick".into());
+    if engine == "lens" {
+        // total wire length of the deterministic ("fixed") form of every served request
+        let mut rng = Rng::new(1);
+        let v: Vec<serde_json::Value> = [1u32, 2, 3, 4, 5, 6, 8, 9, 10, 11, 12, 13, 14, 15, 16, 17, 18, 21, 24, 25, 31, 32, 33, 34, 36, 37, 38, 41, 42, 43, 44]
+            .iter()
+            .map(|c| serde_json::json!({"c": c, "len": wire::build(*c, false, "fixed", 0, &mut rng).bytes().len()}))
+            .collect();
+        println!("{}", serde_json::Value::Array(v));
+        return;
+    }
     let out = arg(&args, "--out").expect("--out");
     // panics in code under test are data: keep the default hook quiet
     std::panic::set_hook(Box::new(|_| {}));
@@ -29,6 +40,10 @@ fn main() {
         "server" => {
             let cases = read_cases(&arg(&args, "--cases").expect("--cases"));
             eng_server::run(&cases, &mut trace, seed);
+        }
+        "client" => {
+            let cases = read_cases(&arg(&args, "--cases").expect("--cases"));
+            eng_client::run(&cases, &mut trace, seed);
         }
         "session" => {
             let cases = read_cases(&arg(&args, "--cases").expect("--cases"));
